@@ -9,13 +9,13 @@ if '--reeval' in sys.argv:
         m = json.load(open(os.path.join(sd, i, 'meta.json')))
         subprocess.run(['/venv/bin/python', os.path.join(VERIF, 'tools', 'seeded_intake.py'), os.path.join(sd, i), i, m['property']], capture_output=True)
 rows = []
-own = other = declined = 0
+own = other = declined = sup = 0
 for i in ids:
     m = json.load(open(os.path.join(sd, i, 'meta.json')))
     first = m.get('checks_output', [''])[0]
     dec = first.split('declined (exit 2) by ')[-1] if 'declined' in first else ''
-    status = 'own check' if m['caught_by_own_property'] else ('other check' if m['caught_by'] else ('declined' if dec and dec != 'none' else 'MISSED'))
-    own += status == 'own check'; other += status == 'other check'; declined += status == 'declined'
+    status = 'superseded' if m.get('superseded') and not m['caught_by'] else 'own check' if m['caught_by_own_property'] else ('other check' if m['caught_by'] else ('declined' if dec and dec != 'none' else 'MISSED'))
+    own += status == 'own check'; other += status == 'other check'; declined += status == 'declined'; sup += status == 'superseded'
     rule = ''
     for l in m.get('checks_output', [])[1:]:
         if 'FAIL' in l:
@@ -23,4 +23,4 @@ for i in ids:
     rows.append(f"| {i} | {m['property']} | {'yes' if m['confirmed'] else 'NO'} | {status} | {', '.join(m['caught_by']) or '-'} {rule} | {dec if dec != 'none' else ''} |")
 print('| seed | property | confirmed | result | caught by (first rule) | declined by |\n|---|---|---|---|---|---|')
 print('\n'.join(rows))
-print(f'\n{len(ids)} seeded changes: {own} caught by the property\'s own check, {other} only by another property\'s check, {declined} declined (exit 2, no alarm), {len(ids)-own-other-declined} missed.')
+print(f'\n{len(ids)} seeded changes: {own} caught by the property\'s own check, {other} only by another property\'s check, {declined} declined (exit 2, no alarm), {len(ids)-own-other-declined-sup} missed, {sup} superseded by a /repo repair (no longer breaks the property).')
